@@ -167,6 +167,25 @@ fn main() {
                 }
                 Err(e) => item("redis.omitted.error", format!("{}", e)),
             }
+            // PoolConfig: max_size is a required field; if a text that omits it is accepted at all, the value
+            // must be the documented default (physical CPUs * 4), as must PoolConfig::default()
+            let cpus4 = num_cpus::get_physical() * 4;
+            for (k, text) in [("empty", "{}"), ("queue_mode_only", "{\"queue_mode\":\"Lifo\"}"), ("timeouts_only", "{\"timeouts\":{\"wait\":null,\"create\":null,\"recycle\":null}}")] {
+                let v = match serde_json::from_str::<deadpool::managed::PoolConfig>(text) {
+                    Ok(c) if c.max_size == cpus4 => "documented default".to_string(),
+                    Ok(c) => format!("{}", c.max_size),
+                    Err(_) => "rejected".to_string(),
+                };
+                item(&format!("poolconfig.omitted_max_size.{}", k), v);
+            }
+            item("poolconfig.default.max_size_is_cpus_times_4", format!("{}", deadpool::managed::PoolConfig::default().max_size == cpus4));
+            match serde_json::from_str::<deadpool::managed::PoolConfig>("{\"max_size\":3}") {
+                Ok(c) => {
+                    item("poolconfig.omitted_sections.timeouts", format!("{:?} {:?} {:?}", c.timeouts.wait, c.timeouts.create, c.timeouts.recycle));
+                    item("poolconfig.omitted_sections.queue_mode", format!("{:?}", c.queue_mode));
+                }
+                Err(e) => item("poolconfig.omitted_sections.error", format!("{}", e)),
+            }
             let d = deadpool_redis::Config::default();
             item("redis.default.url", format!("{:?}", d.url));
             item("redis.default.connection_is_none", format!("{}", d.connection.is_none()));
